@@ -101,7 +101,7 @@ def gen_case(rng, model, opts, task, big=False):
 def generate(rng, tier):
     cases = []
     tasks = ["regression", "binary", "multiclass"]
-    reps = 2 if tier == "quick" else 20
+    reps = 3 if tier == "quick" else 20
     k = 0
     for _ in range(reps):
         for model in P.MODELS:
